@@ -34,6 +34,8 @@ def gen_doc(rng, nmax, multi=False):
         if rng.random() < 0.4:
             attrs.append(['data-x', rng.choice(DATAVALS), '"'])
         name = rng.choice(NAMES)
+        if depth > 0 and rng.random() < 0.12:
+            return [['S', name, attrs, True]]            # written <name ... />: an element that closes itself
         toks = [['S', name, attrs, False]]
         if rng.random() < 0.6:
             t = rng.choice(TEXTS)
@@ -183,6 +185,10 @@ class C06(core.Check):
                                          ['name__icontains', ['zz', 'N1']], ['class__contains', ['q', 'x', 'y']], ['id__contains', ['zz', 'a', 'e']],
                                          ['text__contains', ['zz', 'ello']]], 3):
                 queries.append(dict(q=['find', [[key, vals]]], recv='doc', sel=[0.0, 0.0, 0.0, 0.0]))
+            for key, val in rng.sample([['data-x__icontains', 'abc'], ['data-x__icontains', 'ABC'], ['data-x__icontains', 'bC'], ['name__icontains', 'N1'],
+                                        ['name__icontains', 'n'], ['text__icontains', 'HELLO'], ['text__icontains', 'world'], ['data-x__contains', 'A'],
+                                        ['data-x__contains', 'bc'], ['class__icontains', 'X']], 3):
+                queries.append(dict(q=['find', [[key, val]]], recv='doc', sel=[0.0, 0.0, 0.0, 0.0]))
             nq += len(queries)
             cases.append(dict(toks=toks, queries=queries))
         # directed: an earlier sibling holds a match below it, a later sibling matches itself
